@@ -55,7 +55,9 @@ def data_run(rng):
             b = bytes(x | 0x80 for x in b)
         return b + rng.choice([b'', b'\x00', bytes([rng.randrange(256)])])
     if k < 0.4:
-        return bytes([rng.randrange(256)]) * rng.randrange(2, 40)
+        # runs up to and beyond one page: the repeat count of the line that stands for them needs more than one byte
+        n = rng.randrange(2, 40) if rng.random() < 0.85 else rng.choice([255, 256, 257, 300, 511, 512, 513, 1000, 4095, 4096])
+        return bytes([rng.randrange(256) if rng.random() < 0.6 else rng.choice([0, 0xff, 3])]) * n
     if k < 0.55:
         return bytes([rng.randrange(256), rng.randrange(256)]) * rng.randrange(2, 12) + rng.choice([b'', bytes([rng.randrange(256)])])
     if k < 0.7:
